@@ -29,6 +29,15 @@ type customValErr struct{ code int }
 
 func (e customValErr) Error() string { return fmt.Sprintf("customValErr %d", e.code) }
 
+// customWrap is a host error type with an Unwrap method.
+type customWrap struct {
+	frame int
+	inner error
+}
+
+func (e *customWrap) Error() string { return fmt.Sprintf("customWrap %d", e.frame) }
+func (e *customWrap) Unwrap() error { return e.inner }
+
 type foreignStruct struct{ n int }
 
 type hostObj struct {
@@ -414,7 +423,19 @@ func (x *exec) goBody(i int) (goja.Value, error) {
 			x.events = append(x.events, obs{K: "g", F: i, Err: err})
 			return ok, nil
 		}
-		if retErr && (f.B == "reterr" || f.B == "wraperr" || f.B == "replaceerr") {
+		if ovf && (f.B == "replaceval" || f.B == "replaceerr") {
+			x.events = append(x.events, obs{K: "g", F: i, Err: err})
+			if f.B == "replaceval" {
+				panic(x.reg(i+1, x.goValue(f.Rep, i+1, fmt.Sprintf("r%d", i))))
+			}
+			e := fmt.Errorf("replacement %d", i)
+			x.errs[fmt.Sprintf("r%d", i)] = e
+			return nil, e
+		}
+		if retErr && c14ref.IsWrap(f.B) {
+			return nil, x.wrap(i, f.B, err) // still uncatchable: the whole Unwrap chain counts
+		}
+		if retErr && c14ref.ReturnsAnError(f.B) {
 			return nil, err // "uncatchable errors ... should be propagated upwards"
 		}
 		panic(err)
@@ -437,10 +458,8 @@ func (x *exec) goBody(i int) (goja.Value, error) {
 		panic(ex)
 	case "reterr":
 		return nil, err
-	case "wraperr":
-		w := fmt.Errorf("w%d: %w", i, err)
-		x.errs[fmt.Sprintf("w%d", i)] = w
-		return nil, w
+	case "wraperr", "joinerr", "customwrap":
+		return nil, x.wrap(i, f.B, err)
 	case "newgoerr":
 		panic(x.reg(i+1, r.NewGoError(err)))
 	case "replaceval":
@@ -452,6 +471,24 @@ func (x *exec) goBody(i int) (goja.Value, error) {
 	}
 	x.bug = "unknown behaviour " + f.B
 	return ok, nil
+}
+
+// wrap returns err inside another error, the way hosts add context, and records the wrapper under the model's key.
+func (x *exec) wrap(i int, how string, err error) error {
+	switch how {
+	case "wraperr":
+		w := fmt.Errorf("w%d: %w", i, err)
+		x.errs[fmt.Sprintf("w%d", i)] = w
+		return w
+	case "joinerr":
+		extra := fmt.Errorf("joined %d", i)
+		j := errors.Join(err, extra)
+		x.errs[fmt.Sprintf("jx%d", i)], x.errs[fmt.Sprintf("j%d", i)] = extra, j
+		return j
+	}
+	c := &customWrap{frame: i, inner: err}
+	x.errs[fmt.Sprintf("cw%d", i)] = c
+	return c
 }
 
 func (x *exec) goLeaf(i int) (goja.Value, error) {
@@ -519,6 +556,8 @@ func (x *exec) goLeaf(i int) (goja.Value, error) {
 			return r.ToValue(marker + i), nil
 		case "reterr":
 			return nil, err
+		case "wraperr", "joinerr", "customwrap":
+			return nil, x.wrap(i, f.B, err)
 		}
 		panic(err)
 	case "foreign":
